@@ -1007,7 +1007,7 @@ class sym_int(metaclass=SymIntType):
     def __new__(cls, x=0, base=None):
         if isinstance(x, SymInt):
             return x
-        if isinstance(x, SymRat):
+        if isinstance(x, (SymRat, SymFloat)):
             return x.trunc()
         if isinstance(x, SymBool):
             return SymInt(Z(x))
@@ -1034,8 +1034,119 @@ class sym_int(metaclass=SymIntType):
         return SymInt(acc, (0, (1 << (8 * len(items))) - 1))
 
 
+class SymFloat:
+    """IEEE-754 binary64 value (z3 FP sort, round-nearest-even) - what Python's `float` arithmetic really computes.
+    Only created when the code under analysis itself calls float(): each query costs seconds, so harnesses keep the
+    operands small."""
+    __slots__ = ('f', 'exact')
+    RM = None
+
+    def __init__(self, f):
+        self.f = f
+        self.exact = None       # the SymInt this float was converted from, when the conversion is exact
+
+    @staticmethod
+    def rm():
+        return z3.RNE()
+
+    @staticmethod
+    def lift(x):
+        if isinstance(x, SymFloat):
+            return x
+        if isinstance(x, SymInt):
+            e = x.e
+            if x.rng is not None:           # a narrow source keeps the conversion circuit small
+                for k in (8, 12, 16, 24, 32, 48):
+                    if k < W and -(1 << (k - 1)) <= x.rng[0] and x.rng[1] < (1 << (k - 1)):
+                        e = z3.Extract(k - 1, 0, x.e)
+                        break
+            r = SymFloat(z3.fpSignedToFP(z3.RNE(), e, z3.Float64()))
+            if x.rng is not None and max(abs(x.rng[0]), abs(x.rng[1])) < (1 << 53):
+                r.exact = x
+            return r
+        if isinstance(x, (bool, builtins.int)):
+            return SymFloat(z3.FPVal(float(x), z3.Float64()))
+        if isinstance(x, builtins.float):
+            return SymFloat(z3.FPVal(x, z3.Float64()))
+        return None
+
+    def _bin(s, o, f, rev=False):
+        o = SymFloat.lift(o)
+        if o is None:
+            return NotImplemented
+        a, b = (o.f, s.f) if rev else (s.f, o.f)
+        return SymFloat(f(a, b))
+
+    def __add__(s, o): return s._bin(o, lambda a, b: z3.fpAdd(z3.RNE(), a, b))
+    def __radd__(s, o): return s._bin(o, lambda a, b: z3.fpAdd(z3.RNE(), a, b), True)
+    def __sub__(s, o): return s._bin(o, lambda a, b: z3.fpSub(z3.RNE(), a, b))
+    def __rsub__(s, o): return s._bin(o, lambda a, b: z3.fpSub(z3.RNE(), a, b), True)
+    def __mul__(s, o): return s._bin(o, lambda a, b: z3.fpMul(z3.RNE(), a, b))
+    def __rmul__(s, o): return s._bin(o, lambda a, b: z3.fpMul(z3.RNE(), a, b), True)
+
+    def __truediv__(s, o):
+        o = SymFloat.lift(o)
+        if o is None:
+            return NotImplemented
+        if SymBool(z3.fpIsZero(o.f)):
+            raise ZeroDivisionError('float division by zero')
+        return SymFloat(z3.fpDiv(z3.RNE(), s.f, o.f))
+
+    def __rtruediv__(s, o):
+        return SymFloat.lift(o) / s
+
+    def __mod__(s, o):
+        o = SymFloat.lift(o)
+        if o is not None and s.exact is not None and o.exact is not None:
+            # both operands are integers below 2^53: Python's float % is then the exact integer remainder
+            if SymBool(o.exact.e == 0):
+                raise ZeroDivisionError('float modulo')
+            return SymFloat.lift(s.exact % o.exact)
+        raise Inconclusive('float modulo of non-integers is outside the model')
+
+    def __rmod__(s, o):
+        return SymFloat.lift(o) % s
+
+    def __neg__(s):
+        return SymFloat(z3.fpNeg(s.f))
+
+    def trunc(s) -> 'SymInt':
+        if s.exact is not None:
+            return s.exact
+        k = min(W, 40)
+        return SymInt(z3.SignExt(W - k, z3.fpToSBV(z3.RTZ(), s.f, z3.BitVecSort(k))) if k < W else
+                      z3.fpToSBV(z3.RTZ(), s.f, z3.BitVecSort(W)))
+
+    def _cmp(s, o, f):
+        o = SymFloat.lift(o)
+        if o is None:
+            return NotImplemented
+        return SymBool(f(s.f, o.f))
+
+    def __lt__(s, o): return s._cmp(o, z3.fpLT)
+    def __le__(s, o): return s._cmp(o, z3.fpLEQ)
+    def __gt__(s, o): return s._cmp(o, z3.fpGT)
+    def __ge__(s, o): return s._cmp(o, z3.fpGEQ)
+    def __eq__(s, o): return s._cmp(o, z3.fpEQ)
+    def __ne__(s, o): return s._cmp(o, z3.fpNEQ)
+
+    def __hash__(s):
+        return 4
+
+    def __format__(s, spec):
+        return 'float'
+
+
+def sym_real_float(x):
+    """Replacement for the builtin `float` itself: binary64, with its rounding."""
+    r = SymFloat.lift(x)
+    if r is None:
+        return builtins.float(x)
+    return r
+
+
 def sym_float(x):
-    """Replacement for `float` where the repo converts before `/` and `%`: exact rational, no rounding."""
+    """Replacement for `fractions.Fraction` where the repo converts before `/` and `%`: exact rational, no rounding."""
     if isinstance(x, SymRat):
         return x
     if isinstance(x, SymInt):
